@@ -67,6 +67,7 @@ type FuncContract struct {
 	Binds    []*Clause // call <callee> bind name = expr [when a == b]: snapshot a value right after a call, usable by later clauses
 	MapReqs  []*Clause // mapupdate <field-or-variable> requires ...: obligations at every m[k] = v on that map
 	Ghosts   []*Clause // unused
+	CallInvs []*Clause // call <callee> invariant: invariants over the repeated invocations an assumed higher-order callee makes (invoke*)
 	Steps    []*Step   // fresh / invoke steps of assumed higher-order contracts, in order
 	File     string
 	Line     int
@@ -80,6 +81,7 @@ type Step struct {
 	Type string // fresh: type name (pointer to struct)
 	Args []*CExpr
 	When *CExpr
+	Star bool // invoke*: the function value may be invoked any number of times (caller-side `call ... invariant` clauses are the loop invariants)
 	Src  string
 	File string
 	Line int
@@ -400,7 +402,7 @@ func (c *Contracts) LoadFile(path string) error {
 			}
 			n, ty := cutWord(rest)
 			cur.Steps = append(cur.Steps, &Step{Kind: "fresh", Name: n, Type: strings.TrimSpace(ty), File: path, Line: ln})
-		case "invoke":
+		case "invoke", "invoke*":
 			if cur == nil {
 				c.errf(path, ln, "invoke outside a function contract")
 				continue
@@ -415,7 +417,7 @@ func (c *Contracts) LoadFile(path string) error {
 				c.errf(path, ln, "invoke needs f(args): %v", err)
 				continue
 			}
-			stp := &Step{Kind: "invoke", Name: ce.Name, Args: ce.Args, Src: rest, File: path, Line: ln}
+			stp := &Step{Kind: "invoke", Name: ce.Name, Args: ce.Args, Src: rest, File: path, Line: ln, Star: word == "invoke*"}
 			if whenSrc != "" {
 				we, err := ParseCExpr(whenSrc)
 				if err != nil {
@@ -528,6 +530,19 @@ func (c *Contracts) LoadFile(path string) error {
 					cl.When = we
 				}
 				cur.Binds = append(cur.Binds, cl)
+			case "invariant":
+				tags, r := splitTags(r)
+				name, r := splitName(r)
+				e, err := ParseCExpr(r)
+				if err != nil {
+					c.errf(path, ln, "%v", err)
+					continue
+				}
+				cl := &Clause{Kind: "callinv", Name: name, Props: tags, Expr: e, Src: r, Anchor: callee, Arg: arg, File: path, Line: ln}
+				if cl.Name == "" {
+					cl.Name = fmt.Sprintf("L%d", ln)
+				}
+				cur.CallInvs = append(cur.CallInvs, cl)
 			case "cover":
 				tags, _ := splitTags(r)
 				cur.CallReqs = append(cur.CallReqs, &Clause{Kind: "callcover", Name: "exists", Props: tags, Anchor: callee, Arg: arg, File: path, Line: ln})
